@@ -126,6 +126,14 @@ pub open spec fn crossing(a1: Coord<R>, a2: Coord<R>, b1: Coord<R>, b2: Coord<R>
     flt(fzero(), fmul(k, k)) && in_unit(k_s(a1, a2, b1, b2)) && in_unit(k_t(a1, a2, b1, b2))
 }
 
+// one of the two computed parameters is exactly 0 or 1
+pub open spec fn at_endpoint(a1: Coord<R>, a2: Coord<R>, b1: Coord<R>, b2: Coord<R>) -> bool {
+    let (s, t) = (k_s(a1, a2, b1, b2), k_t(a1, a2, b1, b2));
+    feq(s, fzero()) || feq(s, fone()) || feq(t, fzero()) || feq(t, fone())
+}
+// the far end point as the code computes it for parameter 1: one rounding away from p2, no multiplication involved
+pub open spec fn end_of(p1: Coord<R>, p2: Coord<R>) -> Coord<R> { Coord { x: fadd(p1.x, fsub(p2.x, p1.x)), y: fadd(p1.y, fsub(p2.y, p1.y)) } }
+
 pub proof fn lemma_mid_at_zero(p: Coord<R>, s: R, d: Coord<R>)
     requires feq(s, fzero()), fin_pt(p), fin_pt(d),
     ensures feq_pt(mid(p, s, d), p),
